@@ -172,28 +172,29 @@ func checkRootPush(r *Run, vm *VisitorModel) {
 	if pc == nil {
 		r.Fatal("parseCypher not found")
 	}
-	enterPos, walkPos := token.NoPos, token.NoPos
+	// the statements of helpers parseCypher is split into count as its own, in the order they run
+	enterPos, walkPos := 0, 0
 	nested := false
-	for _, st := range pc.Body.List {
+	for i, st := range inlineFunc(vm.pkg, pc, 2).Top {
 		ast.Inspect(st, func(n ast.Node) bool {
 			call, ok := n.(*ast.CallExpr)
 			if !ok {
 				return true
 			}
 			fn := calleeOf(vm.pkg.TypesInfo, call)
-			if fn == vm.ctxEnter && enterPos == token.NoPos {
-				enterPos = call.Pos()
+			if fn == vm.ctxEnter && enterPos == 0 {
+				enterPos = i + 1
 				if _, isExpr := st.(*ast.ExprStmt); !isExpr {
 					nested = true
 				}
 			}
-			if fn != nil && fn.Name() == "Walk" && walkPos == token.NoPos {
-				walkPos = call.Pos()
+			if fn != nil && fn.Name() == "Walk" && walkPos == 0 {
+				walkPos = i + 1
 			}
 			return true
 		})
 	}
-	if enterPos != token.NoPos && walkPos != token.NoPos && enterPos < walkPos && !nested {
+	if enterPos != 0 && walkPos != 0 && enterPos < walkPos && !nested {
 		r.Pass("C08-R2-root-before-walk", "parseCypher", pc.Pos(), "ctx.Enter(root) is an unconditional statement preceding ParseTreeWalker.Walk")
 	} else {
 		r.Fail("C08-R2-root-before-walk", "parseCypher", pc.Pos(), "the root visitor is not unconditionally pushed before the walk: visitorStack[len-1] in EnterEveryRule would index an empty stack")
@@ -208,7 +209,7 @@ func checkResultAssigned(r *Run, vm *VisitorModel, g *Grammar) {
 	pc := decls["parseCypher"]
 	info := vm.pkg.TypesInfo
 	var resField *types.Var
-	ast.Inspect(pc.Body, func(n ast.Node) bool {
+	ast.Inspect(inlineFunc(vm.pkg, pc, 2).Body, func(n ast.Node) bool {
 		if rs, ok := n.(*ast.ReturnStmt); ok && len(rs.Results) == 2 {
 			if sel, ok := ast.Unparen(rs.Results[0]).(*ast.SelectorExpr); ok {
 				if s := info.Selections[sel]; s != nil {
@@ -697,8 +698,11 @@ func checkErrorListeners(r *Run, vm *VisitorModel) {
 		r.Undecide("C08-R7: expected one lexer and one parser local and a *Context parameter in parseCypher, found %d recognisers", len(recs))
 		return
 	}
-	// unconditional top-level statements X.RemoveErrorListeners(); X.AddErrorListener(ctx)
-	for _, st := range pc.Body.List {
+	// unconditional top-level statements X.RemoveErrorListeners(); X.AddErrorListener(ctx) — of parseCypher or of a helper
+	// it calls unconditionally (the order is the order in which the statements run, not the source position)
+	inl := inlineFunc(vm.pkg, pc, 2)
+	addedSeq := map[*recog]int{}
+	for _, st := range inl.Top {
 		es, ok := st.(*ast.ExprStmt)
 		if !ok {
 			continue
@@ -713,12 +717,13 @@ func checkErrorListeners(r *Run, vm *VisitorModel) {
 		}
 		recv, ok := ast.Unparen(sel.X).(*ast.Ident)
 		arg, ok2 := ast.Unparen(call.Args[0]).(*ast.Ident)
-		if !ok || !ok2 || info.Uses[arg] != ctxParam {
+		if !ok || !ok2 || inl.Obj(arg) != ctxParam {
 			continue
 		}
 		for _, rc := range recs {
-			if info.Uses[recv] == rc.obj && rc.added == token.NoPos {
+			if inl.Obj(recv) == rc.obj && rc.added == token.NoPos {
 				rc.added = call.Pos()
+				addedSeq[rc] = inl.Seq(call)
 			}
 		}
 	}
@@ -731,9 +736,9 @@ func checkErrorListeners(r *Run, vm *VisitorModel) {
 		// nothing may use the recogniser (or a stream built on it) before the listener is installed, except constructors
 		// and the listener calls themselves
 		var early ast.Node
-		ast.Inspect(pc.Body, func(n ast.Node) bool {
+		ast.Inspect(inl.Body, func(n ast.Node) bool {
 			call, ok := n.(*ast.CallExpr)
-			if !ok || call.Pos() >= rc.added || early != nil {
+			if !ok || inl.Seq(call) >= addedSeq[rc] || early != nil {
 				return true
 			}
 			name := ""
@@ -749,7 +754,7 @@ func checkErrorListeners(r *Run, vm *VisitorModel) {
 			uses := false
 			check := func(e ast.Expr) {
 				if id, ok := ast.Unparen(e).(*ast.Ident); ok {
-					if o := info.Uses[id]; o != nil && (o == rc.obj || derived[o] == rc.kind || (rc.kind == "lexer" && derived[o] != "")) {
+					if o := inl.Obj(id); o != nil && (o == rc.obj || derived[o] == rc.kind || (rc.kind == "lexer" && derived[o] != "")) {
 						uses = true
 					}
 				}
